@@ -85,7 +85,7 @@ def run_seq(conn, dictcur, n, cols, seq):
 
 
 def run(tier="quick", seed=0, repo="/repo"):
-    maxlen = 3 if tier == "quick" else 4
+    maxlen = 2 if tier == "quick" else 4
     t = Tally(
         rule="all sequences of <= %d fetch operations from %s x result shapes (rows x column lists incl. repeated/quoted names) x {tuple, dict} cursor on the real stack; "
         "a case is non-trivial when at least one row is delivered; distinct = distinct (shape, cursor kind, sequence)" % (maxlen, OPS),
